@@ -191,13 +191,14 @@ def part_b(ctx, pydsdl, u, seed, workdir, case):
             ex.setdefault(len(d["fields"]), []).append(("@print %s._bit_length_" % GT.render_type(t, u), ("bls", R.ref_expand(lay.tree(t)))))
         extra[idx] = {p: [s for s, _ in lst] for p, lst in ex.items()}
         # compute line numbers the way render_def lays lines out
-        line = 1 + (1 if d["kind"] == "union" else 0)
+        nconst = lambda n: sum(1 for c in d.get("consts", []) if c["after"] == n)  # noqa: constants precede the extra lines of a position
+        line = 1 + (1 if d["kind"] == "union" else 0) + nconst(0)
         for s, e in ex.get(0, []):
             if s.startswith("@print"):
                 expected[(idx, line)] = e
             line += 1
         for n in range(1, len(d["fields"]) + 1):
-            line += 1
+            line += 1 + nconst(n)
             for s, e in ex.get(n, []):
                 if s.startswith("@print"):
                     expected[(idx, line)] = e
@@ -320,7 +321,7 @@ def run_shard(ctx):
             break
         small = rng.random() < 0.65
         text_ok = rng.random() < 0.6
-        u = GT.gen_universe(rng, small=small, text_ok=text_ok, max_fields=6, divisors=(1, 8, 32, 64), cost_budget=30000)
+        u = GT.gen_universe(rng, small=small, text_ok=text_ok, max_fields=6, divisors=(1, 8, 32, 64), cost_budget=30000, consts=True)
         seed = rng.randrange(1 << 30)
         try:
             with ctx.watchdog(120):
